@@ -10,7 +10,7 @@ LEVEL = "proof"
 TAU = bytes.maketrans(b"\n\0", b"\0\n")
 
 
-def run(chk):
+def _run_once(chk):
     chk.rule = ("modes -f (general path with -g -p -t -s -j -r, fast path, dispatch), -c, -l (both algorithms, -m, --no-join), -M (random "
                 "segmentation); inputs over {delimiter bytes, x, y, LF, NUL, CR, 0xFF} (valid UTF-8 for -c/-l) with 1-4 records; each case is "
                 "run as given and with -z toggled on the LF↔NUL-swapped input; non-trivial = selects a byte or fails")
@@ -71,3 +71,9 @@ def run(chk):
         if sa != sb or oa.translate(TAU) != ob:
             chk.report_oracle("-z on the LF↔NUL-swapped input is not the swapped output of newline mode",
                               {"case": x, "case_b": y, "newline_mode": a, "zero_mode": b})
+
+
+def run(chk):
+    # thorough = several independent rounds of the same generators (the PRNG keeps advancing), so that memory stays bounded
+    for _round in range(1 if chk.tier == "quick" else 6):
+        _run_once(chk)
